@@ -281,7 +281,8 @@ def readRaw : Option Raw → Outcome IoKind Parsed
   | some (.text c) => .ok c
 
 def Tree.extGlob (t : Tree) (pat : String) : Outcome LoadErr (List Path) :=
-  match t.ext.find? fun kv => kv.1 = pat with
+  -- recorded patterns are compared as paths: the real loader may hand over `dir/./x` where the model says `dir/x`
+  match t.ext.find? fun kv => parsePath kv.1 = parsePath pat with
   | some (_, some ps) => .ok (ps.map parsePath)
   | some (_, none) => .err .invalidIncludeGlob
   | none => .err .globFailure
